@@ -73,7 +73,7 @@ package clientpb
 // afterwards every command of the batch is at or below its client's mark.
 //@ func (*CommandCache).Proposed property C15
 //@   requires c.clientSeqNumbers != nil && (batch != nil ==> cnonnil(batch.Commands))
-//@   ensures [monotone] forall id uint32 :: c.clientSeqNumbers[id] >= old(c.clientSeqNumbers[id])
+//@   ensures [monotone] forall id uint32 :: {c.clientSeqNumbers[id]} c.clientSeqNumbers[id] >= old(c.clientSeqNumbers[id])
 //@   ensures [marked] batch != nil ==> forall i int :: {batch.Commands[i]} 0 <= i && i < len(batch.Commands) ==> isdupc(c, batch.Commands[i])
 //@   loop 0 invariant [monotone] forall id uint32 :: c.clientSeqNumbers[id] >= old(c.clientSeqNumbers[id])
 //@   loop 0 invariant [marked] batch != nil ==> forall i int :: {batch.Commands[i]} 0 <= i && i <= rangeindex ==> isdupc(c, batch.Commands[i])
